@@ -4,6 +4,7 @@ mod cc;
 mod cl;
 mod ex;
 mod exec;
+mod fz;
 mod h1;
 mod h2r;
 mod mp;
@@ -98,6 +99,7 @@ fn main() {
         "C11" => go!(wk::WkRig),
         "C13" => go!(cc::CcRig),
         "C17" => go!(cl::ClRig),
+        "C19" => go!(fz::FzRig),
         "C14" => go!(ws::WsRig),
         "C15" => go!(mp::MpRig),
         _ => {
